@@ -411,12 +411,15 @@ def r5_consumers(repo: Repo, rep):
             rep.undecided(R, init.site(), init.fq, "weight/bias initialisation", "copy_ calls not found")
             continue
 
-        def atom(n, ev):
+        axis_vars = [k for k, it in p.loopvars.items() if "range(" in dump(it)]
+        iv = axis_vars[0] if axis_vars else "i"
+
+        def atom(n, ev, iv=iv):
             if isinstance(n, ast.Subscript):
                 t = dump(n).replace(" ", "")
-                if t.endswith("[::2][i]"):
+                if t.endswith(f"[::2][{iv}]"):
                     return RF.atom("MIN")
-                if t.endswith("[1::2][i]"):
+                if t.endswith(f"[1::2][{iv}]"):
                     return RF.atom("MAX")
             if isinstance(n, ast.Call) and attr_chain(n.func) in ("torch.tensor", "torch.diag") and n.args:
                 a0 = n.args[0]
@@ -445,13 +448,20 @@ def r5_consumers(repo: Repo, rep):
     rep.saw(fi)
     bb = fi.params[1]
     lins = [c for c in ast.walk(fi.node) if isinstance(c, ast.Call) and attr_chain(c.func) == "torch.linspace"]
-    good = len(lins) == 1 and len(lins[0].args) >= 2 and dump(lins[0].args[0]).replace(" ", "") == f"{bb}[2*i]" and dump(lins[0].args[1]).replace(" ", "") == f"{bb}[2*i+1]"
+    axl = [dump(l.target) for l in ast.walk(fi.node) if isinstance(l, ast.For) and "range(self.domain.dim)" in dump(l.iter).replace(" ", "")]
+    ax = axl[0] if axl else "i"
+    good = len(lins) == 1 and len(lins[0].args) >= 2 and dump(lins[0].args[0]).replace(" ", "") == f"{bb}[2*{ax}]" and dump(lins[0].args[1]).replace(" ", "") == f"{bb}[2*{ax}+1]"
     rep.check(R, good, fi.site(), fi.fq, "strata of axis i span [box[2i], box[2i+1]]", dump(lins[0])[:120] if lins else "no linspace", dump(lins[0])[:120] if lins else "")
     sp = lhs.methods.get("_sample_points")
     if sp is not None:
         rep.saw(sp)
         calls = [c for c in ast.walk(sp.node) if isinstance(c, ast.Call) and dump(c.func) == "self.domain.bounding_box"]
-        good = len(calls) == 1 and calls[0].args and dump(calls[0].args[0]) == "ith_params"
+        from .c02 import _single_row, _local_defs
+        defs = _local_defs(sp.node)
+        a0 = calls[0].args[0] if calls and calls[0].args else None
+        if isinstance(a0, ast.Name) and a0.id in defs:
+            a0 = defs[a0.id]
+        good = len(calls) == 1 and a0 is not None and _single_row(a0)
         inloop = any(isinstance(l, ast.For) and any(c is calls[0] for c in ast.walk(l)) for l in ast.walk(sp.node)) if calls else False
         rep.check(R, good and inloop, sp.site(), sp.fq, "LHS uses the box of the current parameter row (inside the per-row loop)", dump(calls[0])[:80] if calls else "no call", "lhs box")
 
